@@ -323,3 +323,215 @@ def shared_list(ctx, o):
             o.site(sc, sc.node, "publish callback stores the object it is given")
         else:
             o.refute(sc, sc.node, '__set_children', "the publish callback stores a different list than the one it is given")
+
+
+# ======================================================================================================================
+# guard requirements as propositional implications over canonical atoms
+#
+#   requirement R (a formula over atoms, from the property text)  ==>  OR of the conditions of all RuntimeError guards that
+#   are decided before the first write.  Decided by truth table over the atoms that occur (opaque sub-conditions are free
+#   variables: the implication must hold whatever their value).  Path-condition residues ("an earlier guard did not fire")
+#   need no special treatment: (c1) or (not c1 and c2) == c1 or c2.
+
+def F_atom(name):
+    return ('atom', name)
+
+
+def F_not(f):
+    return ('not', f)
+
+
+def F_and(*fs):
+    return ('and', list(fs))
+
+
+def F_or(*fs):
+    return ('or', list(fs))
+
+
+def evalf(f, env) -> bool:
+    k = f[0]
+    if k == 'atom':
+        return env[f[1]]
+    if k == 'not':
+        return not evalf(f[1], env)
+    if k == 'and':
+        return all(evalf(x, env) for x in f[1])
+    if k == 'or':
+        return any(evalf(x, env) for x in f[1])
+    if k == 'const':
+        return f[1]
+    raise ValueError(k)
+
+
+def atoms_of(f, acc=None):
+    acc = acc if acc is not None else set()
+    if f[0] == 'atom':
+        acc.add(f[1])
+    elif f[0] == 'not':
+        atoms_of(f[1], acc)
+    elif f[0] in ('and', 'or'):
+        for x in f[1]:
+            atoms_of(x, acc)
+    return acc
+
+
+def fmt(f) -> str:
+    k = f[0]
+    if k == 'atom':
+        return f[1]
+    if k == 'not':
+        return 'not ' + fmt(f[1])
+    if k == 'const':
+        return str(f[1])
+    return '(' + (' and ' if k == 'and' else ' or ').join(fmt(x) for x in f[1]) + ')'
+
+
+def cond_formula(e: ast.AST, roles: Roles, extra: Dict[str, str], binder_seen: list):
+    """boolean formula of a condition expression over canonical atoms; unknown parts become opaque atoms"""
+    if isinstance(e, ast.UnaryOp) and isinstance(e.op, ast.Not):
+        return F_not(cond_formula(e.operand, roles, extra, binder_seen))
+    if isinstance(e, ast.BoolOp):
+        parts = [cond_formula(v, roles, extra, binder_seen) for v in e.values]
+        return ('and', parts) if isinstance(e.op, ast.And) else ('or', parts)
+    if isinstance(e, ast.Constant) and isinstance(e.value, bool):
+        return ('const', e.value)
+    ex = facts.exists_form(e)
+    if ex is None and isinstance(e, ast.Call) and isinstance(e.func, ast.Name) and e.func.id == 'bool' and e.args:
+        ex = facts.exists_form(e.args[0])
+    if ex is not None:
+        tgt, it, cs = ex
+        if isinstance(tgt, ast.Name) and roles.is_arg_list(it):
+            binder_seen.append('elem')
+            ex2 = dict(extra, **{tgt.id: 'elem'})
+            return ('and', [cond_formula(c, roles, ex2, binder_seen) for c in cs]) if cs else ('const', True)
+    ca = canon_atom(e, lambda x: roles.render(x, extra))
+    if ca is not None:
+        a = F_atom(ca[0])
+        return F_not(a) if ca[1] else a
+    return F_atom('opaque:' + roles.render(e, extra))
+
+
+class GF:
+    """one guard (raise) with its condition as a formula"""
+
+    def __init__(self, g: facts.Guard, roles: Roles):
+        self.g, self.node, self.exc = g, g.node, g.exc
+        extra = {}
+        self.per_element = False
+        self.foreign_binder = False
+        for tgt, it in g.binders:
+            if isinstance(tgt, ast.Name) and roles.is_arg_list(it):
+                extra[tgt.id] = 'elem'
+                self.per_element = True
+            else:
+                self.foreign_binder = True
+        seen = []
+        parts = []
+        for t, pol in g.conds:
+            f = cond_formula(t, roles, extra, seen)
+            parts.append(f if pol else F_not(f))
+        if seen:
+            self.per_element = True
+        self.formula = ('and', parts) if parts else ('const', True)
+        self.extra = extra
+
+    def opaque(self):
+        return sorted(a for a in atoms_of(self.formula) if a.startswith('opaque:'))
+
+
+def guard_formulas(ctx, f: Func) -> List[GF]:
+    roles = Roles(ctx.prog, f, ctx.typer)
+    return [GF(g, roles) for g in facts.guards_of(ctx.prog, f, ctx.typer, inline=True)]
+
+
+def implication(R, fs: List) -> Optional[dict]:
+    """None if R ==> OR(fs) for every assignment, else a counterexample assignment"""
+    names = sorted(atoms_of(R) | set().union(*[atoms_of(x) for x in fs]) if fs else atoms_of(R))
+    if len(names) > 16:
+        return {'_too_many_atoms': True}
+    n = len(names)
+    for bits in range(1 << n):
+        env = {names[i]: bool(bits >> i & 1) for i in range(n)}
+        if evalf(R, env) and not any(evalf(x, env) for x in fs):
+            return env
+    return None
+
+
+def require(ctx, o, f: Func, label: str, R, writes, eff, needs_elem: bool, mode_filter=None):
+    """obligation step: requirement R must be rejected with RuntimeError before any relation write of f"""
+    cfg = cfg_of(f)
+    gfs = guard_formulas(ctx, f)
+    early, late = [], []
+    for g in gfs:
+        np_ = writes_not_preceded(cfg, f, _as_gf(g), writes)
+        if mode_filter is not None:
+            np_ = [w for w in np_ if mode_filter(cfg, f, w[0], g)]
+        (late if np_ else early).append(g)
+    usable = [g for g in early if g.exc == 'RuntimeError' and (g.per_element or not needs_elem or 'elem' not in fmt(g.formula))]
+    cex = implication(R, [g.formula for g in usable])
+    if cex is None:
+        hit = [g for g in usable if atoms_of(g.formula) & atoms_of(R)]
+        o.site(f, (hit[0].node if hit else f.node), f"{label}: {fmt(R)} => RuntimeError before the first write")
+        return True
+    # diagnose
+    wrong_exc = [g for g in early if g.exc != 'RuntimeError']
+    if wrong_exc and implication(R, [g.formula for g in usable + wrong_exc]) is None:
+        o.refute(f, wrong_exc[0].node, label, f"[{label}] is rejected with {wrong_exc[0].exc} instead of RuntimeError")
+        return False
+    late_rt = [g for g in late if g.exc == 'RuntimeError']
+    if late_rt and implication(R, [g.formula for g in usable + late_rt]) is None:
+        g = next((x for x in late_rt if atoms_of(x.formula) & atoms_of(R)), late_rt[0])
+        w = writes_not_preceded(cfg, f, _as_gf(g), writes)
+        o.refute(f, g.node, label, f"[{label}] is only checked after relation state was written (`{src(w[0][1])[:50]}` comes first): a rejection "
+                                   f"leaves a half-done change")
+        return False
+    if needs_elem:
+        not_elem = [g for g in early if g.exc == 'RuntimeError' and g not in usable]
+        if not_elem and implication(R, [g.formula for g in usable + not_elem]) is None:
+            o.refute(f, not_elem[0].node, label, f"[{label}] is not evaluated for every element of the argument")
+            return False
+    opaque = sorted({a for g in early + late for a in g.opaque()})
+    by_id = [a for a in opaque if '.id' in a and ('==' in a or '!=' in a)]
+    if by_id:
+        o.refute(f, f.node, label, f"[{label}] depends on `{by_id[0][7:][:80]}`, a comparison of task IDS: equal ids are exactly what must not be "
+                                   f"trusted here")
+        return False
+    # polarity inversion: some guard mentions the key atoms of R but fires in the complementary case
+    keys = atoms_of(R)
+    inverted = [g for g in early + late if keys & atoms_of(g.formula) and implication(g.formula, [R]) is not None
+                and implication(('and', [g.formula, R]), []) is not None and False]
+    helper_calls = unfolded_raising_helpers(ctx, f, eff)
+    if opaque or helper_calls:
+        why = ("conditions the rule cannot interpret: " + '; '.join(a[7:][:60] for a in opaque[:3])) if opaque else \
+            ("helper(s) that may hold the check: " + ', '.join(helper_calls[:3]))
+        o.undecided(f, f.node, label, f"[{label}] not established ({why})")
+        return False
+    env_txt = ', '.join(f"{k}={v}" for k, v in sorted(cex.items()) if k in keys)
+    o.refute(f, f.node, label, f"[{label}] is missing: with {env_txt} no RuntimeError is raised before relation state is written")
+    return False
+
+
+def _as_gf(g: GF):
+    class _W:
+        pass
+    w = _W()
+    w.g = g.g
+    return w
+
+
+def unfolded_raising_helpers(ctx, f: Func, eff) -> List[str]:
+    """package functions called by f that may raise and that are neither baseline validators the rules know nor folded away"""
+    known = {'_to_list', '_check_no_nones_in_list', '_check_not_none'}
+    out = []
+    for ci in ctx.cg.calls_in(f):
+        for t in ci.targets:
+            if t is None or t.name in known:
+                continue
+            if ci.kind in ('getter',) or t.kind in ('getter',):
+                continue
+            if t.kind == 'setter' or t.name in ('append', 'remove', 'insert', 'move', '_attach', '_detach', '__init__'):
+                continue
+            if eff.direct_raises(t) and not any(k[0] in REL_FIELDS for k in eff.writes_star(t)):
+                out.append(t.qual)
+    return sorted(set(out))
